@@ -42,12 +42,15 @@ def main():
     rc1, out1 = sh(demo_cmd, cwd=wt, timeout=300)
     res["demo_with_change_exit"] = rc1
     res["demo_with_change_tail"] = out1[-600:]
-    sh("git stash -q -- src", cwd=wt)
+    # NOT git stash: the stash is shared by every worktree of /repo (two seed agents collided on it once)
+    d_rc, d_out = sh(f"git diff -- src | diff -q - {src / 'patch.diff'}", cwd=wt)
+    res["worktree_diff_equals_patch"] = d_rc == 0
+    sh(f"git apply -R {src / 'patch.diff'}", cwd=wt)
     rc2, out2 = sh(demo_cmd, cwd=wt, timeout=300)
-    sh("git stash pop -q", cwd=wt)
+    sh(f"git apply {src / 'patch.diff'}", cwd=wt)
     res["demo_without_change_exit"] = rc2
     res["demo_without_change_tail"] = out2[-300:]
-    res["confirmed"] = ("103 passed" in res["suite_with_change"]) and rc1 != 0 and rc2 == 0
+    res["confirmed"] = ("103 passed" in res["suite_with_change"]) and rc1 != 0 and rc2 == 0 and d_rc == 0
     # (2) our check against it: in a scratch worktree of /repo with the patch applied (VERIF_REPO), or - with --in-repo - literally
     #     `git -C /repo apply`, run, `git -C /repo checkout -- .`
     patch = src / "patch.diff"
